@@ -170,6 +170,7 @@ def handle (st : St) : List Str → St × Str
             else st.ls.u.decl (if what = str "func" then .func else if what = str "var" then .var else .const) n
           ({ st with ls := { st.ls with u := r.1 } }, showObj r.1 r.2)
       | _ => (st, str "bad-op")
+    else if op = str "inputs" then (st, hexList (st.ls.requested.mergeSort Str.le))
     else if op = str "dump" then (st, hex (dump st.ls.u))
     else (st, str "bad-op")
   | _ => (st, str "bad-op")
